@@ -7,18 +7,17 @@ From Defs Require Import Gen.TypeTables Model.Layout Model.Emit Proofs.LayoutPro
 Import ListNotations.
 Open Scope string_scope. Open Scope list_scope. Open Scope Z_scope.
 
-(* ------------------------------------------------------------------ "plain" fields: the exclusion *)
+(* ------------------------------------------------------------------ "plain" fields
+   (an invariant of every parsed state, see plain_run_always: array length >= 1 when given - add_fields rejects
+   anything else - and native keys known to the parser's table) *)
 Definition key_plain (k : string) : bool :=
-  match tlookup k parser_types with Some _ => negb (String.eqb k "signed char") | None => false end.
-(* a field that uses none of the recorded construct classes:
-   array length >= 1 (when given); not the native type `signed char`; not an alias of a struct *)
+  match tlookup k parser_types with Some _ => true | None => false end.
 Definition field_plain (p : pfield) : bool :=
   (match pf_len p with Some n => 1 <=? n | None => true end) &&
   match pf_kind p with
   | FNat => key_plain (pf_ty p)
   | FAlias (ANat k) => key_plain k
-  | FAlias (AStruct _) => false
-  | FStruct | FMsg => true
+  | FAlias (AStruct _) | FStruct | FMsg => true
   end.
 Definition state_plain (st : pstate) : bool := forallb (fun d => forallb field_plain (pd_fields d)) (all_defs st).
 
@@ -29,8 +28,8 @@ Definition resolved_fields (st : pstate) (i : item) : list pfield :=
     match resolve_body (ps_consts st) (ps_aliases st) (ps_structs st) (ps_msgs st) b with POk ps => ps | _ => [] end
   | _ => []
   end.
-(* decidable, evaluated along the same traversal: no definition processed so far (the failing one included)
-   resolves to a non-plain field *)
+(* evaluated along the traversal: every definition processed so far resolves to plain fields (always true:
+   plain_run_always) *)
 Fixpoint plain_run (ap : bool) (l : list item) (st : pstate) : bool :=
   match l with
   | [] => true
@@ -107,7 +106,8 @@ Proof.
   unfold resolve_field in E. destruct (existsb (String.eqb (fd_name d)) reserved_field_names); [discriminate|].
   destruct (resolve_ftype (ps_aliases st) (ps_structs st) (ps_msgs st) (fd_type d)) as [[[k sz] a]|k|k] eqn:Et; try discriminate.
   destruct (fd_len d) as [e|].
-  - destruct (ceval (ps_consts st) e); [|discriminate]. inversion E; subst. eapply resolve_ftype_szok; eauto.
+  - destruct (ceval (ps_consts st) e) as [v|]; [|discriminate]. destruct (v <? 1); [discriminate|].
+    inversion E; subst. eapply resolve_ftype_szok; eauto.
   - inversion E; subst. eapply resolve_ftype_szok; eauto.
 Qed.
 
@@ -187,35 +187,27 @@ Proof.
   inversion H as [[E1 E2 E3]]. simpl. rewrite E2, (IH _ E3). reflexivity.
 Qed.
 
-Lemma key_plain_ct k sz kd : key_plain k = true -> tlookup k parser_types = Some (sz, kd) ->
-  exists kd', ctype_of_native k = Some (sz, kd').
+Lemma key_plain_ct k sz kd : tlookup k parser_types = Some (sz, kd) -> exists kd', ctype_of_native k = Some (sz, kd').
 Proof.
-  unfold key_plain. intros H E. rewrite E in H. apply negb_true_iff in H. apply String.eqb_neq in H.
-  destruct (ka_ct _ _ _ (tables_agree _ _ _ E H)) as (nm & E1 & E2). unfold ctype_of_native. rewrite E1, E2. eauto.
+  intros E. destruct (ka_ct _ _ _ (tables_agree _ _ _ E)) as (nm & E1 & E2). unfold ctype_of_native. rewrite E1, E2. eauto.
 Qed.
 
 (* get_ctype_cls succeeds on plain fields and builds members of the recorded sizes *)
-Lemma ct_fields_ok ps : Forall field_szok ps -> forallb field_plain ps = true ->
-  forall i, exists cts, ct_fields i ps false = POk cts /\
+Lemma ct_fields_ok ps : Forall field_szok ps ->
+  forall i, exists cts, ct_fields i ps = POk cts /\
                         map s2 cts = map (fun p => (pf_align p, pf_esize p * len_or_1 (pf_len p))) ps.
 Proof.
-  induction ps as [|p r IH]; intros Hs Hp i; simpl; [exists []; auto|].
-  inversion Hs as [|? ? [W K] Hr]; subst. apply andb_true_iff in Hp. destruct Hp as [Hp Hpr].
-  destruct (IH Hr Hpr (i + 1)) as (cts & E1 & E2).
-  unfold field_plain in Hp. apply andb_true_iff in Hp. destruct Hp as [Hl Hk].
-  assert (Hneg : (match pf_len p with Some n => n <? 0 | None => false end) = false).
-  { destruct (pf_len p); auto. apply Z.leb_le in Hl. apply Z.ltb_ge. lia. }
-  destruct (pf_kind p) as [|[k|s0]| |] eqn:Ek; try discriminate.
-  - destruct K as (kd & T & A). destruct (key_plain_ct _ _ _ Hk T) as (kd' & C). rewrite C. simpl.
-    destruct (pf_len p) as [n|]; simpl in *; [rewrite Hneg; simpl|]; rewrite E1; eexists; split; eauto;
-      simpl; rewrite E2; unfold s2, fsize; simpl; rewrite A; reflexivity.
-  - destruct K as (kd & T & A). destruct (key_plain_ct _ _ _ Hk T) as (kd' & C). rewrite C. simpl.
-    destruct (pf_len p) as [n|]; simpl in *; [rewrite Hneg; simpl|]; rewrite E1; eexists; split; eauto;
-      simpl; rewrite E2; unfold s2, fsize; simpl; rewrite A; reflexivity.
-  - simpl. destruct (pf_len p) as [n|]; simpl in *; [rewrite Hneg; simpl|]; rewrite E1; eexists; split; eauto;
-      simpl; rewrite E2; unfold s2, fsize; simpl; reflexivity.
-  - simpl. destruct (pf_len p) as [n|]; simpl in *; [rewrite Hneg; simpl|]; rewrite E1; eexists; split; eauto;
-      simpl; rewrite E2; unfold s2, fsize; simpl; reflexivity.
+  induction ps as [|p r IH]; intros Hs i; simpl; [exists []; auto|].
+  inversion Hs as [|? ? [W K] Hr]; subst.
+  destruct (IH Hr (i + 1)) as (cts & E1 & E2).
+  destruct (pf_kind p) as [|[k|s0]| |] eqn:Ek.
+  - destruct K as (kd & T & A). destruct (key_plain_ct _ _ _ T) as (kd' & C). rewrite C. rewrite E1.
+    eexists; split; eauto. simpl. rewrite E2. unfold s2, fsize. simpl. rewrite A. reflexivity.
+  - destruct K as (kd & T & A). destruct (key_plain_ct _ _ _ T) as (kd' & C). rewrite C. rewrite E1.
+    eexists; split; eauto. simpl. rewrite E2. unfold s2, fsize. simpl. rewrite A. reflexivity.
+  - rewrite E1. eexists; split; eauto. simpl. rewrite E2. reflexivity.
+  - rewrite E1. eexists; split; eauto. simpl. rewrite E2. reflexivity.
+  - rewrite E1. eexists; split; eauto. simpl. rewrite E2. reflexivity.
 Qed.
 
 Lemma rel_s2 ps fs : Forall2 rel ps fs -> map s2 fs = map (fun p => (pf_align p, pf_esize p * len_or_1 (pf_len p))) ps.
@@ -267,7 +259,7 @@ Proof.
   set (ps' := rebuild ps fs' 0) in *.
   assert (S' : Forall field_szok ps') by (eapply Forall_impl; [|exact R2]; intros q [A _]; exact A).
   assert (P' : forallb field_plain ps' = true) by (apply forallb_forall; intros q Hq; exact (proj2 (proj1 (Forall_forall _ _) R2 q Hq))).
-  destruct (ct_fields_ok ps' S' P' 0) as (cts & C1 & C2). rewrite C1.
+  destruct (ct_fields_ok ps' S' 0) as (cts & C1 & C2). rewrite C1.
   assert (Es2 : map s2 cts = map s2 fs') by (rewrite C2; symmetry; apply rel_s2; exact R1).
   rewrite (c_sizeof_s2 _ _ Es2), Gsz, Z.eqb_refl.
   destruct (max_msg_size <? total_size fs'); [exact I|].
@@ -289,6 +281,32 @@ Proof. intros (fs' & H). exists fs'. exact H. Qed.
 Lemma is_signal_false_fields (d : pdef) : pd_fields d <> [] -> is_signal d = false.
 Proof. unfold is_signal. destruct (pd_fields d); [congruence|reflexivity]. Qed.
 
+Lemma resolve_ftype_nocrash al ss ms t k : resolve_ftype al ss ms t <> PCrash k.
+Proof.
+  unfold resolve_ftype. destruct (tlookup t parser_types) as [[? ?]|]; [discriminate|].
+  destruct (find_alias t al); [discriminate|]. destruct (find_def t ss); [discriminate|].
+  destruct (find_def t ms) as [m|]; [destruct (is_signal m)|]; discriminate.
+Qed.
+Lemma resolve_field_nocrash cs al ss ms d k : resolve_field cs al ss ms d <> PCrash k.
+Proof.
+  unfold resolve_field. destruct (existsb (String.eqb (fd_name d)) reserved_field_names); [discriminate|].
+  destruct (resolve_ftype al ss ms (fd_type d)) as [[[k0 sz] a]|k0|k0] eqn:E; [|discriminate|].
+  - destruct (fd_len d) as [e|]; [|discriminate]. destruct (ceval cs e) as [v|]; [|discriminate]. destruct (v <? 1); discriminate.
+  - exfalso. exact (resolve_ftype_nocrash _ _ _ _ _ E).
+Qed.
+Lemma resolve_fields_nocrash cs al ss ms l k : resolve_fields cs al ss ms l <> PCrash k.
+Proof.
+  induction l as [|d r IH]; simpl; [discriminate|].
+  destruct (resolve_field cs al ss ms d) as [p|k0|k0] eqn:E; [|discriminate|].
+  - destruct (resolve_fields cs al ss ms r) as [qs|k0|k0]; try discriminate. intro H. apply IH. exact H.
+  - exfalso. exact (resolve_field_nocrash _ _ _ _ _ _ E).
+Qed.
+Lemma resolve_body_nocrash cs al ss ms b k : resolve_body cs al ss ms b <> PCrash k.
+Proof.
+  destruct b as [l|n]; simpl; [apply resolve_fields_nocrash|].
+  destruct (find_def n ms); [discriminate|]. destruct (find_def n ss); discriminate.
+Qed.
+
 Lemma define_plain ap st b :
   InvW st -> forallb field_plain (resolved_fields st (IStruct "" b)) = true ->
   match define ap st b with
@@ -301,18 +319,7 @@ Proof.
   intros Hi Hp. unfold define. simpl in Hp.
   destruct (resolve_body (ps_consts st) (ps_aliases st) (ps_structs st) (ps_msgs st) b) as [ps|k|k] eqn:Eb; auto.
   - apply finish_def_plain; auto. eapply resolve_body_szok; eauto.
-  - (* resolve_body never crashes *)
-    destruct b as [l|n]; simpl in Eb.
-    + clear Hp. revert Eb. induction l as [|d r IH]; simpl; [discriminate|].
-      unfold resolve_field. destruct (existsb (String.eqb (fd_name d)) reserved_field_names); [discriminate|].
-      unfold resolve_ftype. destruct (tlookup (fd_type d) parser_types) as [[? ?]|].
-      * destruct (fd_len d) as [e|]; [destruct (ceval (ps_consts st) e)|];
-          try discriminate; destruct (resolve_fields (ps_consts st) (ps_aliases st) (ps_structs st) (ps_msgs st) r) eqn:Er; try discriminate; auto.
-      * destruct (find_alias (fd_type d) (ps_aliases st)); [|destruct (find_def (fd_type d) (ps_structs st)); [|destruct (find_def (fd_type d) (ps_msgs st)) as [m|]; [destruct (is_signal m)|]]];
-          try discriminate;
-          (destruct (fd_len d) as [e|]; [destruct (ceval (ps_consts st) e)|];
-           try discriminate; destruct (resolve_fields (ps_consts st) (ps_aliases st) (ps_structs st) (ps_msgs st) r) eqn:Er; try discriminate; auto).
-    + destruct (find_def n (ps_msgs st)); [discriminate|]. destruct (find_def n (ps_structs st)); discriminate.
+  - exfalso. exact (resolve_body_nocrash _ _ _ _ _ _ Eb).
 Qed.
 
 Lemma step_plain ap st i :
@@ -400,10 +407,7 @@ Qed.
 
 (* ------------------------------------------------------------------ layouts in the four languages *)
 Lemma key_plain_tables k sz kd : key_plain k = true -> tlookup k parser_types = Some (sz, kd) -> key_agrees k sz kd.
-Proof.
-  unfold key_plain. intros H E. rewrite E in H. apply negb_true_iff in H. apply String.eqb_neq in H.
-  apply tables_agree; assumption.
-Qed.
+Proof. intros _ E. apply tables_agree. exact E. Qed.
 
 Lemma lay_s2 (tbl : list (string * (Z * Z))) (cnt : pfield -> Z) (d : pdef) :
   (forall k sz kd, key_plain k = true -> tlookup k parser_types = Some (sz, kd) -> exists kd', tlookup k tbl = Some (sz, kd')) ->
@@ -531,4 +535,84 @@ Proof.
   - intros k sz kd P T. rewrite class_plain_nat, (ka_m _ _ _ (key_plain_tables _ _ _ P T)). simpl.
     destruct (kd =? 3) eqn:E; simpl; rewrite ?E; reflexivity.
   - apply count_c_model.
+Qed.
+
+(* ------------------------------------------------------------------ every parsed state is plain *)
+Lemma szok_plain p : field_szok p -> match pf_len p with Some n => 1 <= n | None => True end -> field_plain p = true.
+Proof.
+  intros [W K] Hl. unfold field_plain. apply andb_true_iff. split.
+  - destruct (pf_len p); [apply Z.leb_le; exact Hl|reflexivity].
+  - unfold key_plain. destruct (pf_kind p) as [|[k|s0]| |]; auto; destruct K as (kd & T & _); rewrite T; reflexivity.
+Qed.
+
+Lemma resolve_fields_len cs al ss ms l ps : resolve_fields cs al ss ms l = POk ps ->
+  Forall (fun p => match pf_len p with Some n => 1 <= n | None => True end) ps.
+Proof.
+  revert ps. induction l as [|d r IH]; simpl; intros ps H; [inversion H; constructor|].
+  destruct (resolve_field cs al ss ms d) as [p|k|k] eqn:E; try discriminate.
+  destruct (resolve_fields cs al ss ms r) as [qs|k|k] eqn:E2; try discriminate.
+  inversion H; subst. constructor; [|apply IH; reflexivity].
+  unfold resolve_field in E. destruct (existsb (String.eqb (fd_name d)) reserved_field_names); [discriminate|].
+  destruct (resolve_ftype al ss ms (fd_type d)) as [[[k sz] a]|k|k]; try discriminate.
+  destruct (fd_len d) as [e|]; [|inversion E; subst; exact I].
+  destruct (ceval cs e) as [v|]; [|discriminate]. destruct (v <? 1) eqn:Ev; [discriminate|].
+  inversion E; subst. simpl. apply Z.ltb_ge in Ev. exact Ev.
+Qed.
+
+Lemma resolved_plain st i : InvW st -> state_plain st = true -> forallb field_plain (resolved_fields st i) = true.
+Proof.
+  intros Hi Hsp.
+  assert (Hb : forall b, forallb field_plain
+                 (match resolve_body (ps_consts st) (ps_aliases st) (ps_structs st) (ps_msgs st) b with POk ps => ps | _ => [] end) = true).
+  { intros b. destruct (resolve_body (ps_consts st) (ps_aliases st) (ps_structs st) (ps_msgs st) b) as [ps|k|k] eqn:Eb; auto.
+    destruct b as [l|n].
+    - pose proof (resolve_body_szok _ _ _ Hi Eb) as S. simpl in Eb. pose proof (resolve_fields_len _ _ _ _ _ _ Eb) as Ln.
+      apply forallb_forall. intros p Hp. apply szok_plain.
+      + exact (proj1 (Forall_forall _ _) S p Hp).
+      + exact (proj1 (Forall_forall _ _) Ln p Hp).
+    - simpl in Eb. unfold state_plain, all_defs in Hsp. rewrite forallb_app in Hsp. apply andb_true_iff in Hsp. destruct Hsp as [H1 H2].
+      destruct (find_def n (ps_msgs st)) as [m|] eqn:Em.
+      + inversion Eb; subst. apply find_def_some_in in Em. exact (proj1 (forallb_forall _ _) H2 _ Em).
+      + destruct (find_def n (ps_structs st)) as [s|] eqn:Es; [|discriminate].
+        inversion Eb; subst. apply find_def_some_in in Es. exact (proj1 (forallb_forall _ _) H1 _ Es). }
+  destruct i as [n e|n v|n t|n v|n v|n b|n id [b|]|ids]; simpl; auto.
+Qed.
+
+Lemma plain_run_always ap l : forall st, InvW st -> state_plain st = true -> plain_run ap l st = true.
+Proof.
+  induction l as [|i r IH]; simpl; intros st Hi Hsp; auto.
+  pose proof (resolved_plain st i Hi Hsp) as Hp. rewrite Hp. simpl.
+  destruct (step ap st i) as [s1|k|k] eqn:Es; auto.
+  apply IH.
+  - pose proof (step_plain ap st i Hi Hp) as S. rewrite Es in S. exact S.
+  - apply (run_plain_state ap [i] st s1 Hi Hsp).
+    + simpl. rewrite Hp, Es. reflexivity.
+    + simpl. rewrite Es. reflexivity.
+Qed.
+
+(* C15_total: the model of Parser.parse never ends in an internal error *)
+Theorem parse_never_crashes ap l k : parse_items ap l <> PCrash k.
+Proof.
+  intro E. pose proof (run_plain_no_crash ap l ps_empty InvW_empty (plain_run_always ap l ps_empty InvW_empty eq_refl)) as G.
+  unfold parse_items in E. rewrite E in G. exact G.
+Qed.
+
+Theorem parsed_invw ap l st : parse_items ap l = POk st -> InvW st /\ state_plain st = true.
+Proof.
+  intros H. pose proof (plain_run_always ap l ps_empty InvW_empty eq_refl) as Hp. split.
+  - pose proof (run_plain_no_crash ap l ps_empty InvW_empty Hp) as G. unfold parse_items in H. rewrite H in G. exact G.
+  - exact (run_plain_state ap l ps_empty st InvW_empty eq_refl Hp H).
+Qed.
+
+(* every native key a parsed field reaches has a JavaScript default value (tables) *)
+Lemma parsed_js_natives st : InvW st -> js_natives_known st = true.
+Proof.
+  intros [Ha Hs Hm]. unfold js_natives_known. apply forallb_forall. intros d Hd. apply forallb_forall. intros p Hp.
+  assert (Hdef : def_szok d).
+  { unfold all_defs in Hd. apply in_app_or in Hd. destruct Hd as [Hd|Hd].
+    - exact (proj1 (proj1 (Forall_forall _ _) Hs d Hd)).
+    - exact (proj1 (Forall_forall _ _) Hm d Hd). }
+  destruct Hdef as [Fs _]. pose proof (proj1 (Forall_forall _ _) Fs p Hp) as [_ K].
+  unfold field_js_native, js_has. destruct (pf_kind p) as [|[k|s0]| |]; auto;
+    destruct K as (kd & T & _); rewrite (ka_js _ _ _ (tables_agree _ _ _ T)); reflexivity.
 Qed.
